@@ -284,9 +284,10 @@ pub fn run(ctx: &Ctx, evidence: Option<&PathBuf>) -> i32 {
         });
         // C: all values with <= 3 set bits (not already covered by A or B)
         ctx.run_fixed("sparse-values", 1, |c| {
-            for a in 0..31u32 {
-                for b in a..31 {
-                    for d in b..31 {
+            let bit_step = if ctx.scale == Scale::Miri { 6 } else { 1 };
+            for a in (0..31u32).step_by(bit_step) {
+                for b in (a..31).step_by(bit_step) {
+                    for d in (b..31).step_by(bit_step) {
                         let v = (1u32 << a) | (1 << b) | (1 << d);
                         for v in [v, v.wrapping_sub(1) & MAX, (!v) & MAX] {
                             let vv = u64::from(v);
@@ -304,8 +305,8 @@ pub fn run(ctx: &Ctx, evidence: Option<&PathBuf>) -> i32 {
                 }
             }
             // out-of-range u32: boundaries and sparse patterns
-            for a in 0..32u32 {
-                for b in a..32 {
+            for a in (0..32u32).step_by(bit_step) {
+                for b in (a..32).step_by(bit_step) {
                     let v = (1u32 << 31) | (1 << a) | (1 << b);
                     for v in [v, !(v & MAX), u32::MAX, 1 << 31] {
                         if v > MAX {
@@ -320,9 +321,13 @@ pub fn run(ctx: &Ctx, evidence: Option<&PathBuf>) -> i32 {
             }
         });
         // D: seeded random values
-        let n_rand = ctx.size(1 << 20, 1 << 20);
-        ctx.run_cases("random-values", n_rand.div_ceil(CHUNK), |c| {
-            for _ in 0..CHUNK {
+        let (n_chunks, per_chunk) = match ctx.scale {
+            Scale::Full => ((1u64 << 20) / CHUNK, CHUNK),
+            Scale::San => (8, CHUNK),
+            Scale::Miri => (2, 100),
+        };
+        ctx.run_cases("random-values", n_chunks, |c| {
+            for _ in 0..per_chunk {
                 let v = c.rng.u32() & MAX;
                 if let Err(e) = check_value(v, true) {
                     c.violation(classify(v), Json::obj().with("value", v).with("error", e));
